@@ -429,8 +429,14 @@ theorem C04_slot_setters_bytes (ops : FOps) (B B' : Stored) (r r' : Row)
     rw [p5] at g1; rw [q5] at g2
     exact ⟨f1, f2, f3, f4, pre, post, old, g1, g2, g3⟩
 
-/-- non-vacuity: the example row of the frame section is what its own payloads decode to -/
 example : columnOnly (.title (some [65])) = true ∧ columnOnly (.key none) = false := by decide
+
+/-- non-vacuity: the foreign-looking row of the frame section (three cue entries, a labelled empty slot,
+trailing bytes in every column) is what its own payloads decode to and encode from -/
+example : DecodesTo ⟨payloadTrack row0, payloadOvw row0, payloadBeat row0, payloadCues row0, payloadLoops row0⟩ row0 ∧
+    EncodesTo row0 ⟨payloadTrack row0, payloadOvw row0, payloadBeat row0, payloadCues row0, payloadLoops row0⟩ := by
+  unfold DecodesTo EncodesTo
+  refine ⟨⟨?_, ?_, ?_, ?_, ?_⟩, ⟨?_, ?_, ?_, ?_, ?_⟩⟩ <;> set_option maxRecDepth 8192 in decide
 
 end StoredBytes
 
